@@ -415,6 +415,15 @@ def pack_fault_task(variant):
                 packfault=wit), det, 1))
     twin = [None]
 
+    def pack_time(m):
+        # 'fault-mid': two transactions are younger than the pack time, so
+        # the packer copies them one by one, letting go of the commit lock
+        # in between
+        if variant == 'fault-mid':
+            from persistent.TimeStamp import TimeStamp
+            return TimeStamp(m.tids()[2]).timeTime()
+        return env.CLOCK.now
+
     def packed_twin():
         env.reset_globals()
         sched.install_locks()
@@ -424,7 +433,7 @@ def pack_fault_task(variant):
             for op in FAULT_HIST:
                 t.apply(op, sp)
             env.CLOCK.now += 1
-            t.storage.pack(env.CLOCK.now, referencesf, gc=False)
+            t.storage.pack(pack_time(t.model), referencesf, gc=False)
             return battery.observe(t.storage, t.model.oids(),
                                    t.model.tids(), 'F', iter_level=0)
         finally:
@@ -452,7 +461,7 @@ def pack_fault_task(variant):
                 inj = ('stale-old',)
             else:
                 iolog.LOG.arm(n, 0)
-                r = call(s.pack, env.CLOCK.now, referencesf, gc=False)
+                r = call(s.pack, pack_time(m), referencesf, gc=False)
                 inj = iolog.LOG.injected
                 iolog.LOG.disarm()
                 if inj is None:
@@ -549,7 +558,8 @@ def run(rep, tier, seed, workers):
     schedx.explore_many(rep, MOD, plan, workers, seed)
     from mc import par
     par.run_tasks([(MOD, 'pack_fault_task', (v,))
-                   for v in ('fault', 'stale-old')], workers, rep, seed)
+                   for v in ('fault', 'fault-mid', 'stale-old')], workers,
+                  rep, seed)
     rep.cov['distinct_nontrivial'] = len(rep.outcomes)
     rep.assumptions = [
         'crash model: prefix of the issued file-system operations in issue '
